@@ -221,6 +221,11 @@ def mol_pose(draw, shape, vol, only_grid=False):
     pos, rot = [], {"cls": "identity", "rv": [0.0, 0.0, 0.0]}
     for a in range(3):
         lo, hi = int(np.ceil(half[a])) + 1, int(np.floor(vol[a] - 1 - half[a])) - 1
+        if hi < lo and cls not in ("outside",):
+            # thin volume axis: the template box sticks out of both faces wherever the molecule sits
+            k = draw(st.integers(0, vol[a] - 1))
+            pos.append(k + (0.5 if (shape[a] % 2 == 0 and cls == "grid") else 0.0) if cls == "grid" else round(draw(st.floats(0, vol[a] - 1)), 3))
+            continue
         if cls == "grid":
             k = draw(st.integers(lo, hi))
             pos.append(k + (0.5 if shape[a] % 2 == 0 else 0.0))
@@ -242,6 +247,8 @@ def mol_pose(draw, shape, vol, only_grid=False):
 @st.composite
 def cases(draw):
     vol = [draw(st.integers(24, 40)) for _ in range(3)]
+    if draw(st.integers(0, 5)) == 0:
+        vol[draw(st.integers(0, 2))] = draw(st.integers(3, 8))  # a slab thinner than the templates
     ncomp = draw(st.integers(1, 3))
     comps = []
     for _ in range(ncomp):
@@ -259,6 +266,8 @@ def nontrivial(d):
 
 def labels(d):
     labs = {f"order:{d['order']}", f"ncomp:{len(d['components'])}", "scale:1" if d["scale"] == 1.0 else "scale:other"}
+    if min(d["vol"]) < 9:
+        labs.add("thin-volume")
     for c in d["components"]:
         labs |= set(gen.parity_class(c["shape"]))
         for m in c["mols"]:
